@@ -128,6 +128,7 @@ def run(repo, rep):
     rule_docs(repo, rep, vela, af)
     rule_ini(repo, rep, af)
     rule_round4(repo, rep, vela, af)
+    rule_round5(repo, rep, vela, af)
 
 
 # ------------------------------------------------------------------ a
@@ -659,3 +660,31 @@ def rule_round4(repo, rep, vela, af):
                           "unspecified gets the i.MX93 values instead of the documented internal-default mapping")
     if nx < 3:
         raise AnalysisError(f"Imx93ArchitectureFeatures construction sites: only {nx} found")
+
+
+def rule_round5(repo, rep, vela, af):
+    """An option that no selected section specifies keeps the value it had: the default handed to _read_config / _read_port is the
+    current value of the very attribute that receives the result. The resolved arena cache size is what the scheduler gets."""
+    gv = af.func("ArchitectureFeatures._get_vela_config")
+    n = 0
+    for st in ast.walk(gv):
+        if not (isinstance(st, ast.Assign) and len(st.targets) == 1):
+            continue
+        calls = [c for c in ast.walk(st.value) if isinstance(c, ast.Call) and str(norm(c.func)) in ("self._read_config", "self._read_port") and len(c.args) >= 3]
+        if len(calls) != 1:
+            continue
+        tgt = str(norm(st.targets[0]))
+        dflt = str(norm(calls[0].args[2]))
+        if dflt.endswith(".name"):
+            dflt = dflt[:-5]
+        n += 1
+        rep.check(dflt == tgt, "C18-b", f"{AF}:ArchitectureFeatures._get_vela_config", f"`{tgt}` is read with its own current value as the default",
+                  f"the default is `{dflt}`: when no selected section gives {str(norm(calls[0].args[1]))[:50]} the attribute takes another attribute's value instead of keeping its documented default")
+    if n < 10:
+        raise AnalysisError(f"_get_vela_config: only {n} option reads found")
+    so = [c for c in ast.walk(vela.func("main")) if isinstance(c, ast.Call) and (call_name(c) or "").endswith("SchedulerOptions")]
+    if len(so) != 1:
+        raise AnalysisError("main: SchedulerOptions construction not found")
+    kw = {k.arg: str(norm(k.value)) for k in so[0].keywords}
+    rep.check(kw.get("sram_target") == "arch.arena_cache_size", "C18-c", f"{VP}:main", "the scheduler's SRAM target is the resolved arena cache size (file value overridden by the CLI)",
+              f"sram_target = {kw.get('sram_target')}: the size resolved from --arena-cache-size / the configuration file is printed but not used for the compilation")
